@@ -134,9 +134,12 @@ func (E *Engine) Encode(name string, level int) (res *FuncResult) {
 				if c.Kind == "preserves" {
 					what = "preserves." + what
 				}
-				if o := fr.oblige("post", what, t, fn.Pos()); o != nil {
-					o.Facet, o.Tags = c.Facet, c.Tags
-					o.Pos = token.Position{Filename: c.File, Line: c.Line}
+				if t != True {
+					n0 := len(enc.Obls)
+					fr.obligeSplit("post", what, t, fn.Pos(), c.Facet, c.Tags)
+					for _, o := range enc.Obls[n0:] {
+						o.Pos = token.Position{Filename: c.File, Line: c.Line}
+					}
 				} else {
 					// trivially true after simplification: still count it
 					o := enc.Oblige(name, "post", what, True, token.Position{Filename: c.File, Line: c.Line})
